@@ -58,7 +58,8 @@ def make_device(kind, devtype, qual, salt=0):
                 raise RuntimeError("device object reports status %02Xh" % st_)
         d = devs.RecDevice(devtype, responder=responder, qualifier=qual)
     elif kind == "sgio":
-        d = transports.make_sgio(transports.node_path("c16-%d" % (_N[0] % 64)), handler=tgt.handle)
+        tgt.node = transports.node_path("c16-%d" % (_N[0] % 64))
+        d = transports.make_sgio(tgt.node, handler=tgt.handle)
     else:
         d = transports.make_iscsi("iscsi://10.0.0.%d/iqn.verif:t%d/0" % (_N[0] % 250, _N[0]), handler=tgt.handle)
     return d, tgt
@@ -131,6 +132,11 @@ def sequence(draw):
             steps.append(("reattach_same_failing", draw(st.sampled_from([0x02, 0x08, 0x18]))))
             steps.append(("cmd", draw(st.sampled_from(sorted(CMDS)))))
         if draw(st.integers(0, 3)) == 0:
+            # the device node is replaced (hot-plug: SG_IO re-opens it on the next command): the selection made
+            # when attaching stays in force
+            steps.append(("replug",))
+            steps.append(("cmd", draw(st.sampled_from(sorted(CMDS)))))
+        if draw(st.integers(0, 3)) == 0:
             # the same device object is attached again after the unit behind it has changed (another medium
             # changer slot, a re-provisioned LUN): the probe is repeated and decides anew
             steps.append(("reattach_same_changed", draw(types)))
@@ -185,6 +191,19 @@ def check_sequence(steps):
                     nt = True
                 history.append([dev, tgt, devtype, dev.opcodes, len(tgt.log), kind])
                 cur = (dev, tgt, devtype, setname)
+            elif step[0] == "replug":
+                dev, tgt, devtype, setname = cur
+                if getattr(tgt, "node", None):
+                    import os
+
+                    ops_before = dev.opcodes
+                    os.unlink(tgt.node)
+                    transports.make_node(tgt.node)
+                    with lib("command after replug"):
+                        s.testunitready()
+                    expect(dev.opcodes is ops_before, "mismatch:replug_changed_the_command_set", devtype=devtype,
+                           got=[k for k, v in tables().items() if v is dev.opcodes])
+                    history[-1][4] = len(tgt.log)
             elif step[0] == "reattach_same_changed":
                 dev, tgt, devtype, setname = cur
                 tgt.devtype = step[1]
